@@ -81,7 +81,8 @@ CHECKS['C17'] = ('4.C17', 'utf8_append_utf32 is proved over all 2^32 code points
 CHECKS['C07'] = ('4.C07', 'buffer_input is verified per operation from an arbitrary valid state (reached by real require/bump/discard calls with symbolic arguments, Chunk 1/2/4, small maxima) with a symbolic '
                  'stream and a reader that returns every legal short-read pattern: representation invariant, require = overflow_error exactly when the request does not fit else enough data whatever the read sizes, '
                  'discard preserves window and counters, bump/rewind; 12 leaf rules give the same result/consumption/position/error on the buffer input as on a memory input over the rest of the stream, or '
-                 'overflow_error. string_input/argv_input hand-off checked. File/mmap/stdio/iostream inputs are I/O and FFI: not applicable parts.')
+                 'overflow_error; every multi-byte single-unit rule of C10 is proved against its specification over an input that grants only the look-ahead requested (size(n) = min(n, remaining), the buffered-input contract). '
+                 'string_input/argv_input hand-off checked. File/mmap/stdio/iostream inputs are I/O and FFI: not applicable parts.')
 CHECKS['C12'] = ('4.C12', 'The real parse_tree::parse (make_control state_handler start/success/failure/unwind, internal::state stack, basic_node spans, selectors and the transformers store/remove_content, '
                  'fold_one, discard_empty) is run on 16 grammars of named rules over symbolic sub-rules (backtracking, star, at/not_at, must, try_catch incl. an action that throws, a recursive rule, a subtree '
                  'beyond is_leaf<8>) and the returned tree is compared slot by slot with the reference derivation (tree iff plain parse succeeds; nodes = surviving successful matches of selected rules, spans, '
